@@ -9,7 +9,7 @@ import ast
 import re
 
 from .. import AnalysisError
-from ..astutil import src, fold, NoFold, try_fold, call_name, dotted, walk_local, docstring_of, ancestors, parent
+from ..astutil import clone, src, fold, NoFold, try_fold, call_name, dotted, walk_local, docstring_of, ancestors, parent
 from ..fn import FA
 from ..intset import IntSet
 from ..pred import rejected, NotRange
@@ -647,6 +647,100 @@ def check_unpack_function(ctx, fa, oracle, kind, int_type):
               '%s: string IDs are converted with astype(%s) before shifting' % (kind, int_type),
               msg='string input is not converted to %s before shifting' % int_type,
               construct='astype conversions: %s' % [t for _, t in conv])
+    strconv = [st for st, t in conv if t == int_type]
+    if strconv:
+        kinds = string_kinds(fa, strconv[0])
+        if kinds is None:
+            raise AnalysisError('C06: %s: the type test that selects decimal-string IDs is not an idiom this checker can read' % f.qualname)
+        ctx.check('C06.STRCONV', {'S', 'U'} <= kinds, f, strconv[0], '%s: decimal-string IDs of both numpy string kinds (bytes and unicode) are converted' % kind,
+                  msg='%s converts decimal-string IDs only for numpy string kind(s) %s: %s arrays (what FITS tables and np.loadtxt(dtype="S") give) are refused '
+                      'with ValueError although they hold the same IDs' % (f.qualname, sorted(kinds), 'byte-string' if 'S' not in kinds else 'unicode'),
+                  construct='string kinds accepted: %s' % sorted(kinds))
+
+
+def string_kinds(fa, conv_stmt):
+    """The numpy string kinds ('S' bytes, 'U' unicode) for which the string-to-integer conversion `conv_stmt` is reached, read off the
+    type tests on the way to it.  None when a test is not of a recognised form."""
+    from ..astutil import path_conditions
+    from ..normal import canon_test
+    BYTES = {'string_', 'bytes_', 'bytes'}
+    UNI = {'unicode_', 'str_', 'str'}
+    BOTH = {'character', 'flexible'}
+
+    def kind_of_type(e, depth=0):
+        d = dotted(e) or ''
+        last = d.split('.')[-1]
+        if last in BYTES:
+            return {'S'}
+        if last in UNI:
+            return {'U'}
+        if last in BOTH:
+            return {'S', 'U'}
+        if isinstance(e, ast.Name) and depth < 3:
+            out = set()
+            if not hasattr(e, '_parent'):
+                # a node of a normalised copy: reaching definitions are those of the same name at the conversion
+                e = next((x for x in ast.walk(fa.node) if isinstance(x, ast.Name) and x.id == e.id and isinstance(x.ctx, ast.Load)), e)
+            for dd, v in fa.defs(e):
+                if dd is None:
+                    continue
+                if v is None:
+                    return None
+                k = kind_of_type(v, depth + 1)
+                if k is None:
+                    return None
+                out |= k
+            return out or None
+        return None
+
+    def admitted(t):
+        """kinds admitted by one (positive) test, or None."""
+        if isinstance(t, ast.BoolOp) and isinstance(t.op, ast.Or):
+            out = set()
+            for v in t.values:
+                k = admitted(v)
+                if k is None:
+                    return None
+                out |= k
+            return out
+        if isinstance(t, ast.Compare) and len(t.ops) == 1:
+            l, r, op = t.left, t.comparators[0], t.ops[0]
+            if isinstance(l, ast.Attribute) and l.attr == 'type' and isinstance(op, (ast.Is, ast.Eq)):
+                return kind_of_type(r)
+            if isinstance(r, ast.Attribute) and r.attr == 'type' and isinstance(op, (ast.Is, ast.Eq)):
+                return kind_of_type(l)
+            if isinstance(l, ast.Attribute) and l.attr == 'type' and isinstance(op, ast.In) and isinstance(r, (ast.Tuple, ast.List, ast.Set)):
+                out = set()
+                for e in r.elts:
+                    k = kind_of_type(e)
+                    if k is None:
+                        return None
+                    out |= k
+                return out
+            if isinstance(l, ast.Attribute) and l.attr == 'kind' and isinstance(r, ast.Constant) and isinstance(r.value, str):
+                if isinstance(op, ast.In):
+                    return set(r.value) & {'S', 'U'}
+                if isinstance(op, ast.Eq):
+                    return {r.value} & {'S', 'U'}
+            if isinstance(r, ast.Attribute) and r.attr == 'kind' and isinstance(l, ast.Constant) and isinstance(op, ast.Eq):
+                return {l.value} & {'S', 'U'}
+        if isinstance(t, ast.Call) and call_name(t) == 'issubdtype' and len(t.args) == 2:
+            return kind_of_type(t.args[1])
+        return None
+    got = None
+    from ..fn import expand
+    for t_, pol in path_conditions(conv_stmt):
+        t_ = expand(t_, fa, depth=3)
+        t2 = canon_test(t_ if pol else ast.UnaryOp(op=ast.Not(), operand=clone(t_)))
+        if not any(isinstance(x, ast.Attribute) and x.attr in ('type', 'kind', 'dtype') for x in ast.walk(t2)):
+            continue
+        k = admitted(t2)
+        if k is None:
+            if pol:
+                return None
+            continue            # the negation of an earlier branch (e.g. `not integer`): no information about string kinds
+        got = k if got is None else (got & k)
+    return got
 
 
 # ---- docstring tables -------------------------------------------------------------------
@@ -749,41 +843,81 @@ def check_run2d(ctx, fa_pack, fa_unpack):
     if fmt is None or not ziporder or len(ziporder) != 3:
         raise AnalysisError('C06: vN_M_P rebuild not found in unwrap_specobjid')
 
-    def qr(e):
-        """normalise ((x // a) + c), ((x % a) // b), (x % a) to (div, mod, add)"""
-        e = e.func.value if isinstance(e, ast.Call) and call_name(e) in ('tolist', 'astype') else e
-        add = 0
-        if isinstance(e, ast.BinOp) and isinstance(e.op, ast.Add):
-            c = try_fold(e.right)
-            if isinstance(c, int):
-                add = c
-                e = e.left
-        div = 1
-        mod = None
-        if isinstance(e, ast.BinOp) and isinstance(e.op, ast.FloorDiv):
-            div = try_fold(e.right)
-            e = e.left
-        if isinstance(e, ast.BinOp) and isinstance(e.op, ast.Mod):
-            mod = try_fold(e.right)
-            e = e.left
-        return (div, mod, add, src(e))
-    got = []
+    # decided by enumeration of the whole 14-bit domain: the three zipped sequences must be N = r//10000 + 5, M = (r % 10000)//100,
+    # P = r % 100 for every packed value r (the expressions are interpreted by the index evaluator, nothing is run)
+    from .. import minieval
+    from ..fn import expand
+
+    def strip(e):
+        while isinstance(e, ast.Call) and call_name(e) in ('tolist', 'astype') and isinstance(e.func, ast.Attribute):
+            e = e.func.value
+        return e
+    exprs = []
     for nm in ziporder:
         d = defs.get(nm)
-        got.append(qr(d.value) if d is not None else None)
-    want = [(10000, None, 5, 'run2d'), (100, 10000, 0, 'run2d'), (1, 100, 0, 'run2d')]
-    ctx.check('C06.RUN2D', got == want, u, defs.get(ziporder[0], fmt),
-              'unpack: N = run2d//10000 + 5, M = (run2d %% 10000)//100, P = run2d %% 100, in zip order',
-              msg='run2d decoding %s does not invert (N-5)*10000 + M*100 + P' % (got,), construct='run2d unpack radix')
+        ctx.need(d is not None, 'unwrap_specobjid: definition of the zipped sequence %s not found' % nm)
+        e = strip(d.value)
+        # follow temporaries down to the packed run2d value
+        def unfold(x, depth=0):
+            """temporaries replaced by their definitions, down to (not through) the value unpacked from the ID by shift and mask"""
+            if depth > 5:
+                return x
+            if isinstance(x, ast.Name) and isinstance(x.ctx, ast.Load):
+                v = fa_unpack.resolve(x) if hasattr(x, '_parent') else None
+                if v is None or any(isinstance(y, ast.BinOp) and isinstance(y.op, (ast.RShift, ast.BitAnd)) for y in ast.walk(v)):
+                    return x
+                return unfold(strip(v), depth + 1)
+            out = clone(x)
+            for fld, val in ast.iter_fields(x):
+                if isinstance(val, ast.AST):
+                    setattr(out, fld, unfold(val, depth))
+                elif isinstance(val, list):
+                    setattr(out, fld, [unfold(y, depth) if isinstance(y, ast.AST) else y for y in val])
+            return out
+        e = unfold(e)
+
+        class S(ast.NodeTransformer):
+            def visit_Call(self, n):
+                self.generic_visit(n)
+                return strip(n)
+        exprs.append(S().visit(clone(e)))
+    base_names = set()
+    for e in exprs:
+        base_names |= {x.id for x in ast.walk(e) if isinstance(x, ast.Name)}
+    ctx.need(len(base_names) == 1, 'unwrap_specobjid: the vN_M_P parts are not computed from one packed value (%s)' % sorted(base_names))
+    rname = base_names.pop()
+    bad = None
+    try:
+        for r in range(0, 2 ** 14):
+            got = tuple(minieval.ev(e, {rname: r}, {}) for e in exprs)
+            want = (r // 10000 + 5, (r % 10000) // 100, r % 100)
+            if got != want:
+                bad = (r, got, want)
+                break
+    except minieval.Unknown as e:
+        raise AnalysisError('C06: unwrap_specobjid: the vN_M_P arithmetic is not an idiom the index evaluator understands (%s)' % e)
+    if bad is not None and any(x is minieval.TOP for x in bad[1]):
+        raise AnalysisError('C06: unwrap_specobjid: the vN_M_P arithmetic is not an idiom the index evaluator understands (%s)' % [src(e) for e in exprs])
+    ctx.check('C06.RUN2D', bad is None, u, defs.get(ziporder[0], fmt),
+              'unpack: (N, M, P) = (r//10000 + 5, (r %% 10000)//100, r %% 100) for every 14-bit run2d value r, in zip order [%s]' % '; '.join(src(e) for e in exprs),
+              msg='run2d decoding %s does not invert (N-5)*10000 + M*100 + P: run2d = %s gives %s, expected %s'
+                  % ([src(e) for e in exprs], bad[0] if bad else '', bad[1] if bad else '', bad[2] if bad else ''), construct='run2d unpack radix')
     fields = re.findall(r'\{(\d*)(?::[^}]*)?\}', fmt.func.value.value)
     bodyfmt = re.sub(r'\{[^}]*\}', '{}', fmt.func.value.value)
     argnames = [a.id if isinstance(a, ast.Name) else src(a) for a in fmt.args]
     elt = None
+    star = None
     for n in walk_local(fa_unpack.node):
         if isinstance(n, ast.ListComp) and any(c is fmt for c in ast.walk(n)):
             tgt = n.generators[0].target
             elt = [e.id for e in tgt.elts] if isinstance(tgt, ast.Tuple) else None
-    order_ok = elt is not None and [argnames[int(i) if i else j] for j, i in enumerate(fields)] == elt
+            if isinstance(tgt, ast.Name) and len(fmt.args) == 1 and isinstance(fmt.args[0], ast.Starred) and isinstance(fmt.args[0].value, ast.Name) \
+                    and fmt.args[0].value.id == tgt.id:
+                star = True
+    if star:
+        order_ok = [int(i) if i else j for j, i in enumerate(fields)] == [0, 1, 2]
+    else:
+        order_ok = elt is not None and [argnames[int(i) if i else j] for j, i in enumerate(fields)] == elt
     ctx.check('C06.RUN2D', bodyfmt == 'v{}_{}_{}' and order_ok, u, fmt,
               "format string %r takes (N, M, P) in that order" % fmt.func.value.value,
               msg='format string %r / argument order %s does not rebuild vN_M_P' % (fmt.func.value.value, argnames),
